@@ -236,7 +236,7 @@ func (c *Ctx) RequireMapWriters(rule, typ, field string, allowed map[string]stri
 	sort.Strings(names)
 	for _, n := range names {
 		key := "map writer of " + typ + "." + field + ": " + n
-		if why, ok := allowed[n]; ok {
+		if why, ok := c.ownedBy(n, allowed, 3); ok {
 			c.Ob(rule, key, true, true, "allowed: %s", why)
 		} else {
 			c.Require(rule, key, false, "%s updates %s.%s at %s but is not in the table of allowed writers", n, typ, field, c.Pos(ws[n].Pos()))
